@@ -369,8 +369,20 @@ def run(ctx, prog):
     ctx.rule('C04.R5', 'drain keeps the canonical record authoritative: reconcile_drained_hot_tier_documents writes to the cold tier only in the arm '
                        'where the canonical embedding or metadata is missing')
     rc = ctx.body('C04.R5', 'TieredEngine::reconcile_drained_hot_tier_documents')
+    util.bind_role(rc, 'cold_embedding', type_rx=r'^core::option::Option<alloc::vec::Vec<f32>', origin_rx=r'HnswBackend::fetch_document\w*\(', full=True)
+    util.bind_role(rc, 'cold_metadata', type_rx=r'^core::option::Option<std::collections::HashMap<alloc::string::String', origin_rx=r'HnswBackend::fetch_metadata\(', full=True)
     rv = flow.Origin(rc, stop_at_vars=True)
     ci = rc.calls_to('HnswBackend::insert')
+    # "missing" means: the canonical accessor itself said None. The tested options are the accessors' results as they are — an adapter in between (filter, and_then,
+    # take_if, a comparison with the mirror) can turn a present canonical component into None, and the repair arm then overwrites the newest canonical version with
+    # the stale mirror copy (with a fresh version, so no token check can notice)
+    rf5 = flow.Origin(rc)
+    for nm5, rx5 in (('cold_embedding', r'^(HnswBackend::fetch_document\(arg:self→TieredEngine\.cold_tier, DOCID\)|Option::map\(HnswBackend::fetch_document_with_coherence\(arg:self→TieredEngine\.cold_tier, DOCID\), closure:[^()]*\)|HnswBackend::fetch_document_with_coherence\(arg:self→TieredEngine\.cold_tier, DOCID\))$'),
+                     ('cold_metadata', r'^HnswBackend::fetch_metadata\(arg:self→TieredEngine\.cold_tier, DOCID\)$')):
+        rx5 = rx5.replace('DOCID', r"<into_iter::IntoIter<T, A> as iterator::Iterator>::next\(arg:documents\)@Some→Some\.0\.0")
+        vl5 = rc.var_local(nm5)
+        o5 = flow.render(rf5.of_local(vl5[0])) if vl5 else '?'
+        ctx.inst('C04.R5', rc.short, '%s is the canonical accessor\'s answer as it is' % nm5, bool(re.match(rx5, o5)), '%s = %s' % (nm5, o5[:200]))
     both = []
     for i, blk in enumerate(rc.blocks):
         if blk['t']['k'] == 'switch' and i in rc.live_blocks():
